@@ -2835,11 +2835,11 @@ static int spmatrix_set_size(spmatrix *self, PyObject *value, void *closure)
     PY_ERR_INT(PyExc_TypeError, "invalid size tuple");
 
 #if PY_MAJOR_VERSION >= 3
-  int m = PyLong_AS_LONG(PyTuple_GET_ITEM(value, 0));
-  int n = PyLong_AS_LONG(PyTuple_GET_ITEM(value, 1));
+  int_t m = PyLong_AS_LONG(PyTuple_GET_ITEM(value, 0));
+  int_t n = PyLong_AS_LONG(PyTuple_GET_ITEM(value, 1));
 #else
-  int m = PyInt_AS_LONG(PyTuple_GET_ITEM(value, 0));
-  int n = PyInt_AS_LONG(PyTuple_GET_ITEM(value, 1));
+  int_t m = PyInt_AS_LONG(PyTuple_GET_ITEM(value, 0));
+  int_t n = PyInt_AS_LONG(PyTuple_GET_ITEM(value, 1));
 #endif
 
   if (m<0 || n<0)
@@ -2851,7 +2851,7 @@ static int spmatrix_set_size(spmatrix *self, PyObject *value, void *closure)
   int_t *colptr = calloc((n+1),sizeof(int_t));
   if (!colptr) PY_ERR_INT(PyExc_MemoryError, "insufficient memory");
 
-  int j, k, in, jn;
+  int_t j, k, in, jn;
   for (j=0; j<SP_NCOLS(self); j++) {
     for (k=SP_COL(self)[j]; k<SP_COL(self)[j+1]; k++) {
       jn = (SP_ROW(self)[k] + j*SP_NROWS(self)) / m;
